@@ -61,6 +61,16 @@ fn index_of_uf(s: &FrequencySketch, hash: u64, depth: u8) -> usize {
 }
 
 pub(crate) fn any_sketch_pub<const N: usize>() -> FrequencySketch { any_sketch::<N>() }
+pub(crate) fn assume_sizing_inv_pub<const N: usize>(s: &FrequencySketch) { assume_sizing_inv::<N>(s) }
+/// (table words, size) of a 4-word sketch
+pub(crate) fn snapshot4(s: &FrequencySketch) -> ([u64; 4], u32) {
+    ([s.table[0], s.table[1], s.table[2], s.table[3]], s.size)
+}
+/// a second sketch with the given contents and the sizing of `like`
+pub(crate) fn rebuild4(words: [u64; 4], size: u32, like: &FrequencySketch) -> FrequencySketch {
+    let table: Box<[u64]> = Box::new(words);
+    FrequencySketch { sample_size: like.sample_size, table_mask: like.table_mask, table, size }
+}
 
 #[inline]
 fn nib(w: u64, j: usize) -> u64 {
